@@ -302,14 +302,14 @@ theorem fieldUses_shapeOk : ∀ fs : Fields, Stmt.shapeOkList (fieldUses fs) = t
   | .bare _ r => by simp [fieldUses, Stmt.shapeOkList, Stmt.shapeOk, fieldUses_shapeOk r]
   | .typed _ _ r => by simp [fieldUses, Stmt.shapeOkList, Stmt.shapeOk, fieldUses_shapeOk r]
 
-theorem aliasView_shape (m : Member) (h : MemberGood m) (l : List Decl) (hl : aliasView m = some l) :
+theorem aliasView_shape (t : Idl) (m : Member) (h : MemberGood m) (l : List Decl) (hl : aliasView t m = some l) :
     l.all Decl.shapeOk = true := by
   cases m with
   | alias n d ty =>
     simp only [aliasView, Option.map_eq_some_iff] at hl
     obtain ⟨g, hg, rfl⟩ := hl
     have hs := goTy_shapeOk ty true g (h.names _ (by simp [Member.types])) (h.dist _ (by simp [Member.types])) hg
-    cases isAliasDecl ty <;> simp [Decl.shapeOk, hs]
+    cases resolvesToObject t ty <;> simp [Decl.shapeOk, hs]
   | method => simp [aliasView] at hl; subst hl; rfl
   | error => simp [aliasView] at hl; subst hl; rfl
 
@@ -615,7 +615,7 @@ theorem typesOk_genFile (t : Idl) (f : GoFile) (hm : ∀ m ∈ t.members, Member
     _, e1, e2, e3, e4, e5, e6, e7, e8, rfl⟩ := genFile_inv hf
   have sub : ∀ (p : Member → Bool), ∀ m ∈ t.members.filter p, MemberGood m :=
     fun p m hm' => hm m (List.mem_filter.mp hm').1
-  have a1 := concatOptL_all aliasView Decl.shapeOk _ _ (fun m hm' x hx => aliasView_shape m (sub _ m hm') x hx) e1
+  have a1 := concatOptL_all (aliasView t) Decl.shapeOk _ _ (fun m hm' x hx => aliasView_shape t m (sub _ m hm') x hx) e1
   have a2 := concatOptL_all errorView Decl.shapeOk _ _ (fun m hm' x hx => errorView_shape m (sub _ m hm') x hx) e2
   have a3 := concatOptL_all (methodClientView t.name) Decl.shapeOk _ _
     (fun m hm' x hx => methodClientView_shape _ m (sub _ m hm') x hx) e3
